@@ -77,8 +77,8 @@ class Typer:
                 self.elem[a.vararg.arg] = c
         if self.fi.cls is not None and a.args and a.args[0].arg == "self":
             self.var["self"] = {self.fi.cls.name}
-        # two passes so that names defined from other names resolve
-        for _ in range(2):
+        # three passes so that names defined from other names resolve
+        for _ in range(3):
             for n in walk_no_nested(fn):
                 if isinstance(n, ast.AnnAssign) and isinstance(n.target, ast.Name):
                     c = _ann_classes(n.annotation, repo)
@@ -93,6 +93,12 @@ class Typer:
                 elif isinstance(n, ast.Assign):
                     for t in n.targets:
                         self._assign(t, n.value)
+                elif isinstance(n, ast.Expr) and isinstance(n.value, ast.Call) and isinstance(n.value.func, ast.Attribute) \
+                        and n.value.func.attr in ("append", "extend", "insert") and isinstance(n.value.func.value, ast.Name) and n.value.args:
+                    a = n.value.args[-1]
+                    c = self.elem_classes(a) if n.value.func.attr == "extend" else self.classes(a)
+                    if c:
+                        self.elem.setdefault(n.value.func.value.id, set()).update(c)
                 elif isinstance(n, (ast.For, ast.comprehension)):
                     it = n.iter
                     ec = self.elem_classes(it)
@@ -177,6 +183,8 @@ class Typer:
                 return self.elem_classes(g.iter)
             return self.classes(e.elt)
         if isinstance(e, ast.Call) and isinstance(e.func, ast.Name) and e.func.id in ("list", "tuple", "sorted", "reversed") and e.args:
+            return self.elem_classes(e.args[0])
+        if isinstance(e, ast.Call) and isinstance(e.func, ast.Attribute) and e.func.attr == "fromkeys" and e.args:
             return self.elem_classes(e.args[0])
         if isinstance(e, ast.Subscript) and isinstance(e.slice, ast.Slice):
             return self.elem_classes(e.value)
